@@ -32,6 +32,7 @@ type c18Caller struct {
 	failAll   bool
 	delay     time.Duration // handler duration
 	lateAfter time.Duration
+	emptyErrText bool // the handler's errors for this caller have an empty text
 	impatient bool // SendWithReply with a context that ends before the handler can have answered
 	replies   []requestreply.Reply[c18Result]
 	chClosed  bool
@@ -39,6 +40,11 @@ type c18Caller struct {
 	done      bool
 	replyCh   <-chan requestreply.Reply[c18Result]
 }
+
+// c18EmptyErr: an error value whose text is empty.
+type c18EmptyErr struct{}
+
+func (c18EmptyErr) Error() string { return "" }
 
 func c18Body(r *Run) {
 	t := r.T
@@ -125,6 +131,7 @@ func c18Body(r *Run) {
 		c.delay = time.Duration(t.Int(3)) * 10 * time.Millisecond
 		c.lateAfter = time.Duration(100+t.Int(400)) * time.Millisecond
 		c.impatient = t.Chance(1, 3)
+		c.emptyErrText = t.Chance(1, 6)
 		callers = append(callers, c)
 	}
 	r.Describe("%d concurrent requests on one reply topic, AckCommandErrors=%v, ListenForReplyTimeout=%v, reply publisher fails on calls %v", nCallers, ackErrors, timeout, replyPub.FailAt)
@@ -202,6 +209,9 @@ func c18Body(r *Run) {
 			if (c.failAll && h.attempt < maxAttempts) || h.attempt <= c.failFirst {
 				h.failed = true
 				r.Fault("handler-error")
+				if c.emptyErrText {
+					return res, c18EmptyErr{} // an error whose text is empty is an error all the same
+				}
 				return res, fmt.Errorf("handler error for caller %d attempt %d", c.id, h.attempt)
 			}
 			return res, nil
@@ -239,6 +249,12 @@ func c18Body(r *Run) {
 				a := rp.HandlerResult.Attempt
 				if (c.failAll && a < maxAttempts) || a <= c.failFirst {
 					wantErr = fmt.Sprintf("handler error for caller %d attempt %d", c.id, a)
+					if c.emptyErrText {
+						wantErr = ""
+					}
+					if rp.Error == nil {
+						r.Fail("C18.R1", "the reply to a failed command carries no error", "%s attempt %d (error text %q)", what, a, wantErr)
+					}
 				}
 				gotErr := ""
 				if rp.Error != nil {
